@@ -217,7 +217,12 @@ func RunWorker(p Property, tier string, seed int64, from, to int, outPrefix stri
 		}
 	}()
 
-	for i := from; i < to; i++ {
+	reverse := os.Getenv("VERIF_ORDER") == "reverse"
+	for k := from; k < to; k++ {
+		i := k
+		if reverse {
+			i = to - 1 - (k - from)
+		}
 		c := cases[i]
 		jf.WriteString(fmt.Sprintf("B %d\n", i))
 		SetDetail("")
@@ -235,6 +240,9 @@ func RunWorker(p Property, tier string, seed int64, from, to int, outPrefix stri
 		for _, v := range res.Violations {
 			b, _ := json.Marshal(violationLine{Case: c.ID(), Index: i, Signature: v.Signature, What: v.What, Witness: v.Witness})
 			jf.WriteString("V " + string(b) + "\n")
+		}
+		if res.Digest != "" {
+			jf.WriteString(fmt.Sprintf("D %d %s\n", i, res.Digest))
 		}
 		if res.Discarded != "" {
 			sum.Discarded++
